@@ -237,7 +237,7 @@ fn dd_d<const D: usize>(s: &SampleGenerator<D>, p: &Phys, ctx: &mut Ctx) -> Resu
     let inv_fro = lin::fro(&invq);
     for i in 0..D {
         let ucol: Vec<Q> = (0..nl).map(|l| md.u_vectors[l][i].q()).collect();
-        let unorm = ucol.iter().map(|u| { let f = qf(u); f * f }).sum::<f64>().sqrt();
+        let unorm = lin::norm2(&ucol.iter().map(qf).collect::<Vec<_>>());
         for l in 0..nl {
             let want = (0..nl).fold(Q::zero(), |a, lp| a + &invq[l][lp] * &ucol[lp]);
             let err = qf(&(md.shift[l][i].q() - &want).abs());
@@ -250,7 +250,7 @@ fn dd_d<const D: usize>(s: &SampleGenerator<D>, p: &Phys, ctx: &mut Ctx) -> Resu
     // momentum map: qt (k + shift) = sqrt(v / 2 lambda) q
     let pref = (r.v / md.lambda / DD::f(2.0)).sqrt();
     for i in 0..D {
-        let scol: f64 = inv_fro * (0..nl).map(|l| { let f = qf(&md.u_vectors[l][i].q()); f * f }).sum::<f64>().sqrt();
+        let scol: f64 = inv_fro * lin::norm2(&(0..nl).map(|l| qf(&md.u_vectors[l][i].q())).collect::<Vec<_>>());
         for l in 0..nl {
             let mut acc = Q::zero();
             let mut scale = 0.0;
